@@ -1,7 +1,7 @@
 (* Properties/C12.v — Generators are deterministic, history-independent (structural part).
    [ch kind party i] is the i-th output of the hash-to-point stream of the label (kind, party); the values
    of that stream (distinctness, subgroup membership, pinned digests) are measured on the real code by K8. *)
-Require Import BP.Proofs.GensLemmas.
+Require Import BP.Proofs.GensLemmas BP.Proofs.GensCodec.
 
 Theorem C12_history_independent :
   forall (P : Type) (ch : bool -> nat -> nat -> P) (reqs : list nat) (cap pcap : nat),
@@ -62,3 +62,16 @@ Theorem C12_labels_injective :
     chain_input k1 j1 = chain_input k2 j2 -> k1 = k2 /\ j1 = j2.
 Proof. exact labels_injective. Qed.
 Print Assumptions C12_labels_injective.
+
+(* the derived (de)serialisation of the generators object round-trips (any suffix left unread), so a
+   decoded object is the object that was encoded and continues to grow as the original would *)
+Theorem C12_serialization_roundtrip :
+  forall (K : FieldOps) (MO : ModOps K) (PS SS : nat) (enc_pt : MO -> list Z) (dec_pt : list Z -> option MO),
+    0 < PS -> 0 < SS -> (forall P, length (enc_pt P) = PS) -> (forall P, dec_pt (enc_pt P) = Some P) ->
+    forall (s : gens MO) (rest : list Z),
+      small (g_cap MO s) -> small (g_pcap MO s) ->
+      small (length (g_G MO s)) -> Forall (fun l => small (length l)) (g_G MO s) ->
+      small (length (g_H MO s)) -> Forall (fun l => small (length l)) (g_H MO s) ->
+      read_gens PS dec_pt (enc_gens enc_pt s ++ rest) = Some (s, rest).
+Proof. intros; eapply gens_roundtrip; eassumption. Qed.
+Print Assumptions C12_serialization_roundtrip.
